@@ -1169,10 +1169,7 @@ class VM:
             if key_str == "BYTES_PER_ELEMENT":
                 return obj._element_size
             if key_str == "buffer":
-                # Return the underlying buffer if it exists (a typed array built
-                # from a length or a list has none)
-                buffer = obj._buffer
-                return buffer if buffer is not None else UNDEFINED
+                return obj.ensure_buffer()
             # Built-in typed array methods
             typed_array_methods = ["toString", "join", "subarray", "set"]
             if key_str in typed_array_methods:
@@ -1444,7 +1441,9 @@ class VM:
             elif args:
                 delete_count = len(arr._elements) - start  # everything from start
             else:
-                delete_count = 0  # the number of arguments decides: splice() removes nothing
+                delete_count = (
+                    0  # the number of arguments decides: splice() removes nothing
+                )
             items = list(args[2:]) if len(args) > 2 else []
 
             length = len(arr._elements)
@@ -1884,14 +1883,13 @@ class VM:
             begin = min(begin, arr.length)
             end = min(end, arr.length)
 
-            # Create new typed array of same type
+            # A new typed array of the same type over the same memory: writes
+            # through either one are seen by the other
             result = type(arr)(max(0, end - begin))
             for i in range(begin, end):
                 result.set_index(i - begin, arr.get_index(i))
-            # Share the same buffer if the original has one
-            if hasattr(arr, "_buffer"):
-                result._buffer = arr._buffer
-                result._byte_offset = arr._byte_offset + begin * arr._element_size
+            result._buffer = arr.ensure_buffer()
+            result._byte_offset = arr._byte_offset + begin * arr._element_size
             return result
 
         def set_fn(*args):
